@@ -227,3 +227,63 @@ Proof. exact (@ConnHandler_proofs.connhandler_inbound_first). Qed.
 
 Print Assumptions connhandler_inbound_independent.
 Print Assumptions connhandler_inbound_first.
+
+(* ---- stated for the whole connection handler (package O): the IncomingMessage events of inbound stream k are a prefix of k's own
+   stream_out, equal to it once the member has settled, whatever the two halves and the other streams do; the inbound side of
+   every run IS Streams.conn_run_full under some schedule, so the for-all-schedules theorems above apply to the real composite;
+   a bad frame costs only its own stream (no stream_safe hypothesis: a fatal poll would have made the handler dead — which a
+   class-F2 frame does: ConnHandler_props.C16_connhandler_streams_complete_refuted). *)
+From BS Require Import Bytes Varint Types FramedWrite Handler ServerHandler Framed Framed_proofs Streams Streams_proofs Handler_proofs ServerHandler_proofs ConnHandler ConnHandler_proofs ConnHandler_proofs2 Proto Prefix Incoming Qp ProtoCodec ProtoCodec_proofs Codec Frame Frame_proofs Codec_proofs Wire.
+From Coq Require Import ZArith Lia.
+Open Scope N_scope.
+
+Theorem connhandler_inbound_is_stream_out :
+  forall (encode : message -> bytes) (block_size : blk -> N) (Sz : N) (Hh : hash_fn) 
+    (chk : bool) (c : conn) (ops : list kop) (k : N),
+  let fin := fst (krun_trace encode block_size (qp_parse chk) (process_message Sz Hh) (k_init c) ops) in
+  let outs :=
+    concat (snd (krun_trace encode block_size (qp_parse chk) (process_message Sz Hh) (k_init c) ops)) in
+  let evs := nth (N.to_nat k) (inbound_evs ops) [] in
+  is_prefix (of_stream k (inbound_outs outs)) (fst (stream_out Sz Hh chk evs)) /\
+  (forall m : kin,
+   nth_error (k_in fin) (N.to_nat k) = Some m ->
+   stream_settled m = true ->
+   stream_out Sz Hh chk evs = (of_stream k (inbound_outs outs), ss_status (ki_st m))).
+Proof. exact (@ConnHandler_proofs2.connhandler_inbound_is_stream_out). Qed.
+
+Theorem C16_connhandler_bad_frame_costs_own_stream :
+  forall (encode : message -> bytes) (block_size : blk -> N) (Sz : N) (Hh : hash_fn) 
+    (chk : bool) (c : conn) (ops : list kop) (j : N) (ms : list message) (bad : list N) 
+    (evs1 : list read_ev) (extra : list N) (more : list read_ev),
+  let fin := fst (krun_trace encode block_size (qp_parse chk) (process_message Sz Hh) (k_init c) ops) in
+  let outs :=
+    concat (snd (krun_trace encode block_size (qp_parse chk) (process_message Sz Hh) (k_init c) ops)) in
+  let streams := inbound_evs ops in
+  k_dead fin = false ->
+  nth (N.to_nat j) streams [] = evs1 ++ more ->
+  live evs1 ->
+  ev_data evs1 = concat (map codec_encode ms) ++ bad ++ extra ->
+  Forall wf_message ms ->
+  Forall (size_ok write_message) ms ->
+  (forall m : message, In m ms -> exists inc : incoming, process_message Sz Hh m = PmOk inc) ->
+  undecodable chk bad \/ closing Sz Hh bad ->
+  forallb stream_settled (k_in fin) = true ->
+  of_stream j (inbound_outs outs) = yielded Sz Hh ms /\
+  (forall k : N,
+   k <> j -> of_stream k (inbound_outs outs) = fst (stream_out Sz Hh chk (nth (N.to_nat k) streams []))).
+Proof. exact (@ConnHandler_proofs2.C16_connhandler_bad_frame_costs_own_stream). Qed.
+
+Theorem connhandler_inbound_is_conn_run :
+  forall (encode : message -> bytes) (block_size : blk -> N) (Sz : N) (Hh : hash_fn) 
+    (chk : bool) (c : conn) (ops : list kop),
+  let fin := fst (krun_trace encode block_size (qp_parse chk) (process_message Sz Hh) (k_init c) ops) in
+  let outs :=
+    concat (snd (krun_trace encode block_size (qp_parse chk) (process_message Sz Hh) (k_init c) ops)) in
+  k_dead fin = false ->
+  exists schedule : list N,
+    conn_run_full Sz Hh chk (inbound_evs ops) schedule = (inbound_outs outs, (COk, map ki_st (k_in fin))).
+Proof. exact (@ConnHandler_proofs2.connhandler_inbound_is_conn_run). Qed.
+
+Print Assumptions connhandler_inbound_is_stream_out.
+Print Assumptions C16_connhandler_bad_frame_costs_own_stream.
+Print Assumptions connhandler_inbound_is_conn_run.
